@@ -222,6 +222,25 @@ def certEx (pem : Nat) : Cert := { pem, names := [], rest := 0 }
 theorem bucketsSorted_of_none (s : St) (h : ∀ t l, look s t ≠ some (.backends l)) : BucketsSorted s :=
   fun t l hl => absurd hl (h t l)
 
+/-- **C07 (worker), proved part.** When the proxies' verdict on a command is the verdict of the
+    worker's own `ConfigState` (both accept or both refuse), a command answered FAILURE leaves the
+    worker's configuration exactly as it was, in every reachable state. -/
+theorem C07_worker_rejected_is_noop_partial (env : Env) (cs : List Cmd) (c : Cmd) (proxyOk : Bool)
+    (hagree : proxyOk = (dispatch env (run env St.init cs) c).2)
+    (hfail : (workerNotify env (run env St.init cs) c proxyOk).2 = false) :
+    Same (workerNotify env (run env St.init cs) c proxyOk).1 (run env St.init cs) := by
+  simp only [workerNotify] at hfail ⊢
+  exact C07_error_is_noop env cs c (by rw [← hagree]; exact hfail)
+
+/-- **C07 (worker) counterexample (F8).** The worker dispatches on its `ConfigState` before asking the
+    proxies and ignores the outcome: a frontend the proxies refuse (no such listener, uncompilable
+    path rule, ...) is answered FAILURE and stays in the worker's configuration. -/
+theorem C07_worker_rejected_is_noop_counterexample :
+    ∃ (s : St) (c : Cmd), (workerNotify envEx s c false).2 = false ∧ ¬ Same (workerNotify envEx s c false).1 s := by
+  refine ⟨St.init, .addTcpF { cluster := 1, addr := 4, tags := 0 }, rfl, ?_⟩
+  intro h
+  exact absurd (h (.tcpF 1)) (by decide)
+
 /-- regression (F5, fixed by 7c0648d): `UpdateHttpsListener {front_timeout: 5, alpn_protocols:
     ["bogus"]}` is rejected and the listener is untouched; same for an invalid `sozu_id_header`. -/
 example :
